@@ -118,4 +118,41 @@ Section Conn.
         | WsNone => false
         end
     end.
+
+  (* ---- a connection that has already carried traffic ----
+     HttpConn::read_request on an idle connection sets write_state = Response; after a 1xx answer the
+     state is still Response.  [conn_prefix] serves the earlier exchanges of a kept-alive connection
+     (complete responses and/or the 100-continue of the current exchange). *)
+  Definition conn_next_request (c : conn) : conn :=
+    match c_ws c with
+    | WsNone => mkConn WsResponse (c_writer c) (c_wire c) (c_shutdowns c)
+    | _ => c
+    end.
+  Fixpoint conn_prefix (c : conn) (pre : list response) : conn :=
+    match pre with
+    | [] => conn_next_request c
+    | p :: t => conn_prefix (snd (conn_write_response (conn_next_request c) p)) t
+    end.
+  (* earlier responses, then the response under test, then the error path *)
+  Definition conn_session (c : conn) (pre : list response) (r r500 : response)
+    : option cerr * wstate * option (option cerr) * conn :=
+    let c1 := conn_prefix c pre in
+    let st1 := c_ws (snd (conn_write_response c1 r)) in
+    let '(res, res2, c2) := conn_exchange c1 r r500 in
+    (res, st1, res2, c2).
+
+  (* what the earlier responses put on the wire *)
+  Definition prior_wire (pre : list response) : bytes :=
+    concat (map (fun p => full_wire reason ct_text p (closes (r_code p))) pre).
+  Definition prefix_resp_ok (p : response) : bool :=
+    r_normal p && negb (collides p) && body_sound (r_body p) && negb (closes (r_code p)).
+
+  (* connection-level oracle with earlier traffic: the client first got exactly the earlier
+     responses; what follows obeys oracle_c08_conn -- in particular a response refused with zero
+     bytes still leaves room for the one whole 500, however many bytes the connection carried before *)
+  Definition oracle_c08_session (pre : list response) (r r500 : response) (res1 : option cerr) (st1 : wstate)
+             (res2 : option (option cerr)) (sent : bytes) : bool :=
+    let prior := prior_wire pre in
+    starts_with prior sent &&
+    oracle_c08_conn r r500 res1 st1 res2 (skipn (length prior) sent).
 End Conn.
